@@ -119,6 +119,15 @@ def selector_forms(tier):
             out.append((S.cx(S.cp((ns, '*'), ('fn', 'not', (S.cx(S.cp(None, ('pc', pc))),))), '>', S.cp(('x', 'f'))),))
         out.append((S.cx(S.cp((ns, 'e')), '>', S.cp(('x', 'f'))),))
         out.append((S.cx(S.cp((ns, 'e')), '~', S.cp((ns, 'e'), ('attr', None, 'k', None, None, None))),))
+    tl = [S.cp(None, ('attr', None, 'k', None, None, None)), S.cp(None, ('class', 'c')), S.cp(None, ('attr', 'x', 'k', None, None, None)),
+          S.cp(None, ('fn', 'not', (S.cx(S.cp(('x', 'e'))),)))]
+    typed = [S.cp(('x', 'e')), S.cp((None, 'f')), S.cp(('*', 'e')), S.cp((None, 'zz'))]
+    for a in tl:
+        for b in typed + tl[:2]:
+            if a is not b:
+                out.append((S.cx(a), S.cx(b)))
+                out.append((S.cx(b), S.cx(a)))
+        out.append((S.cx(a), S.cx(tl[1]), S.cx(typed[0])))
     if tier != 'quick':
         for a, b in itertools.combinations(forms, 2):
             if a[1] is not None and b[1] is None:
